@@ -1,57 +1,50 @@
-(* C03, rtpav1 — statements only *)
+(* C03, rtpav1 — statements only (code with fix commit aec245d; finding F1 is repaired) *)
 From GVL Require Import NList Rtp.
 From GV_av1 Require Import Model Proofs.
 Open Scope N_scope.
 
-(* The property is FALSE of the code that exists (finding F1): the encoder closes a packet with Y,
-   and opens the next with Z, also when nothing could be appended to it; the decoder then glues two
-   complete OBUs.  Smallest witness: limit 5, OBUs of 3 and 1 bytes. *)
-Theorem C03_av1_roundtrip_refuted : exists max seq obus,
-  3 <= max /\ max < two32 /\ seq < 65536 /\ valid_tu obus /\
-  exists ps s', enc max seq obus = Some (ps, s') /\
-    snd (dec_run dinit ps) <> repeat DMore (length ps - 1) ++ [DFrame obus].
-Proof. exact roundtrip_refuted. Qed.
-Print Assumptions C03_av1_roundtrip_refuted.
-
-(* Strongest true statement: for every limit >= 3, every initial sequence number, every valid
-   temporal unit (1..MaxOBUsPerTemporalUnit non-empty OBUs, <= MaxTemporalUnitSize bytes) on which
-   the encoder never closes a packet without having appended a fragment ([agree]: it produces the
-   packets of the repaired encoder), from every clean decoder state: "more" on every packet but the
-   last, the temporal unit - same OBUs, same bytes, same grouping - at the last, clean afterwards.
-   Missing for the full statement: the temporal units excluded by [agree] (they are the violation). *)
-Theorem C03_av1_roundtrip_partial : forall max seq obus d,
-  3 <= max -> max < two32 -> seq < 65536 -> valid_tu obus -> clean d -> agree max obus ->
+(* One temporal unit: for every limit 3 <= max < 2^32, every initial sequence number, every valid
+   temporal unit (1..MaxOBUsPerTemporalUnit non-empty OBUs, <= MaxTemporalUnitSize bytes), from
+   every clean decoder state: "more" on every packet but the last, exactly the temporal unit - same
+   OBUs, same bytes, same grouping - at the last, clean afterwards.  No side condition any more. *)
+Theorem C03_av1_roundtrip : forall max seq obus d,
+  3 <= max -> max < two32 -> seq < 65536 -> valid_tu obus -> clean d ->
   exists ps d', enc max seq obus = Some (ps, seq_add seq (nlen ps)) /\
     dec_run d ps = (d', repeat DMore (length ps - 1) ++ [DFrame obus]) /\ clean d'.
-Proof. exact roundtrip_partial. Qed.
-Print Assumptions C03_av1_roundtrip_partial.
-
-(* temporal units of a single OBU (any size up to the cap) are never affected *)
-Theorem C03_av1_roundtrip_single : forall max seq o d,
-  3 <= max -> max < two32 -> seq < 65536 -> valid_tu [o] -> clean d ->
-  exists ps d', enc max seq [o] = Some (ps, seq_add seq (nlen ps)) /\
-    dec_run d ps = (d', repeat DMore (length ps - 1) ++ [DFrame [o]]) /\ clean d'.
-Proof. exact roundtrip_single. Qed.
-Print Assumptions C03_av1_roundtrip_single.
+Proof. exact roundtrip. Qed.
+Print Assumptions C03_av1_roundtrip.
 
 (* consecutive temporal units through one encoder/decoder pair *)
-Theorem C03_av1_roundtrip_seq_partial : forall max frames, 3 <= max -> max < two32 ->
-  Forall valid_tu frames -> Forall (agree max) frames ->
-  forall seq d, seq < 65536 -> clean d ->
+Theorem C03_av1_roundtrip_seq : forall max frames, 3 <= max -> max < two32 ->
+  Forall valid_tu frames -> forall seq d, seq < 65536 -> clean d ->
   exists pss d', enc_many max seq frames = Some pss /\
     dec_run d (concat pss) = (d', expect pss frames) /\ clean d'.
-Proof. exact roundtrip_seq_partial. Qed.
-Print Assumptions C03_av1_roundtrip_seq_partial.
+Proof. exact roundtrip_seq. Qed.
+Print Assumptions C03_av1_roundtrip_seq.
 
-(* non-vacuity: three OBUs, aggregated and fragmented over three packets with limit 6 *)
+(* regression: the encoder before commit aec245d violated the statement (max 5, OBUs of 3 and 1
+   bytes; decoded as one OBU by the decoder of either version) *)
+Theorem C03_av1_old_encoder_refuted : exists max seq obus,
+  3 <= max /\ max < two32 /\ seq < 65536 /\ valid_tu obus /\
+  exists ps s', enc_old max seq obus = Some (ps, s') /\
+    snd (dec_run dinit ps) <> repeat DMore (length ps - 1) ++ [DFrame obus] /\
+    snd (dec_run_old dinit ps) <> repeat DMore (length ps - 1) ++ [DFrame obus].
+Proof. exact old_encoder_roundtrip_refuted. Qed.
+Print Assumptions C03_av1_old_encoder_refuted.
+
+(* non-vacuity: three OBUs aggregated and fragmented over three packets with limit 6; and the two
+   former F1 witnesses (a packet filled exactly before the last / before a sized OBU) *)
 Example C03_av1_example :
-  agree 6 [[1; 2]; [3; 4; 5; 6; 7; 8; 9]; [10; 11]] /\
   valid_tu [[1; 2]; [3; 4; 5; 6; 7; 8; 9]; [10; 11]] /\
   option_map (fun r => (length (fst r), snd (dec_run dinit (fst r)))) (enc 6 65535 [[1; 2]; [3; 4; 5; 6; 7; 8; 9]; [10; 11]])
-  = Some (3%nat, [DMore; DMore; DFrame [[1; 2]; [3; 4; 5; 6; 7; 8; 9]; [10; 11]]]).
+  = Some (3%nat, [DMore; DMore; DFrame [[1; 2]; [3; 4; 5; 6; 7; 8; 9]; [10; 11]]]) /\
+  option_map (fun r => snd (dec_run dinit (fst r))) (enc 5 65535 [[1; 2; 3]; [4]])
+  = Some [DMore; DFrame [[1; 2; 3]; [4]]] /\
+  option_map (fun r => snd (dec_run dinit (fst r))) (enc 5 0 [[1; 2]; [3]; [4]])
+  = Some [DMore; DFrame [[1; 2]; [3]; [4]]].
 Proof.
-  split; [vm_compute; reflexivity|]. split.
+  split.
   - split; [discriminate|]. split; [repeat constructor|].
     unfold cap_obus, cap_size, GVG.Consts.av1_max_obus, GVG.Consts.av1_max_tu_size. cbn. lia.
-  - vm_compute. reflexivity.
+  - repeat split; vm_compute; reflexivity.
 Qed.
